@@ -256,6 +256,7 @@ func run(id, tier string, replayFiles []string) int {
 	var results []*shardResult
 	var mu sync.Mutex
 	sem := make(chan struct{}, 16)
+	var acquire sync.Mutex
 	var wg sync.WaitGroup
 
 	needBin := false
@@ -347,9 +348,13 @@ func run(id, tier string, replayFiles []string) int {
 			}
 			go func() {
 				defer wg.Done()
+				// all slots of one job are taken under a lock: two jobs that each hold a part of what
+				// they need would wait for each other for ever
+				acquire.Lock()
 				for k := 0; k < weight; k++ {
 					sem <- struct{}{}
 				}
+				acquire.Unlock()
 				defer func() {
 					for k := 0; k < weight; k++ {
 						<-sem
